@@ -203,7 +203,9 @@ def gen_det(rng, nmax):
             for j in range(p):
                 X[i][j] += 8 if (i // 3) % 2 == 0 else -8
     return {"det": det, "n": n, "p": p, "X": X, "index": rng.choice(INDEXES), "columns": rng.choice(["default", "strings"]),
-            "m": rng.choice([1, 2, 3]), "M": rng.choice([3, 4, 100]), "ignore": rng.random() < 0.3}
+            "m": rng.choice([1, 2, 3]), "M": rng.choice([3, 4, 100]), "ignore": rng.random() < 0.3,
+            # the frame is first predicted on while it holds other values, then overwritten in place before transform
+            "mutate": rng.random() < 0.3}
 
 
 def build(case):
@@ -234,8 +236,15 @@ def impl_det(case):
     X = pd.DataFrame(np.array(case["X"], dtype=float), index=idx, columns=make_columns(case["columns"], p))
     try:
         det = build(case).fit(X)
-        y = det.predict(X)
-        d = det.transform(X)
+        if case.get("mutate"):
+            Z = X.to_numpy()[::-1] * 1.0 + 0.0
+            det.predict(X)
+            core.overwrite(X, Z)  # same object, new contents
+            d = det.transform(X)
+            y = det.predict(X)
+        else:
+            y = det.predict(X)
+            d = det.transform(X)
         back = det.dense_to_sparse(d)
         out = {"outcome": "ok", "index_ok": bool(d.index.equals(idx)), "cols": list(map(str, d.columns))}
         if case["det"] in ("pelt", "mw", "sbs"):
